@@ -104,6 +104,12 @@ def cases(tier):
                 if not (up >= 7 and shape == (4, 4) and s != (0, 0)):
                     out.append((f"numpy[{shape};shift={s};up={up}]", numpy_claim(shape, s, up), dict(logic=None)))
                 out.append((f"torch[{shape};shift={s};up={up}]", torch_claim(shape, s, up), dict(logic=None)))
+    # odd number of columns / rows (length 3 is an exact DFT length with the algebraic constant sqrt(3)): torch estimator
+    odd = {(4, 3): [(0, -1), (1, 1), (0, 0)], (2, 3): [(1, 1), (0, 1), (0, -1)], (3, 4): [(-1, 1), (1, 0)]}
+    for shape, shifts in odd.items():
+        for s in shifts:
+            for up in ((1, 2, 4) if shape != (2, 3) else ups):
+                out.append((f"torch[{shape};shift={s};up={up}]", torch_claim(shape, s, up), dict(logic=None)))
     return out
 
 
@@ -114,12 +120,12 @@ for _n, _c, _ in cases("thorough"):
 def run(check, tier):
     check.add_functions("imaging_utils.cross_correlation_shift", "dft_upsample", "align_images_fourier_torch", "upsampled_correlation_torch",
                         "dftUpsample_torch")
-    check.bounds.update(shapes="4x4, 4x2, 2x4 (exact DFT lengths; non-square included)", shifts="integer shifts anywhere in the cell incl. beyond half the size and (0, 0)",
+    check.bounds.update(shapes="4x4, 4x2, 2x4 (exact DFT lengths; non-square included); torch estimator also 4x3, 2x3, 3x4", shifts="integer shifts anywhere in the cell incl. beyond half the size and (0, 0)",
                         upsample_factors="1, 2, 3, 4, 8 (thorough: also 7); NumPy estimator on 4x4 with up >= 7: zero shift only", symbolic="all spectral magnitudes p_k in [0.1, 1]")
     check.assumptions += ["restricted input family (delta image, reference = magnitudes p_k with a linear phase ramp) given in Fourier space",
                           "every argmax comparison / floor / round / mod is decided uniquely by the solver on the path (otherwise inconclusive)",
                           "real arithmetic; non-exact DFT lengths and upsampling kernels use float64 constants, claims asked with tolerance 1e-6"]
     check.outside += ["arbitrary image content", "sub-pixel shifts and the 'within one upsampled pixel' accuracy clause", "max_shift",
-                      "return_shifted_image", "upsampling factors other than 1, 2, 3, 4, 7, 8", "NumPy estimator, 4x4, non-zero shift, upsampling 7 or 8 (does not finish)", "shifts of exactly half the cell (sign ambiguous)", "image sizes other than 2 and 4 per axis (the estimator's data-dependent rounding is not determined under the float-constant DFT model)"]
+                      "return_shifted_image", "upsampling factors other than 1, 2, 3, 4, 7, 8", "NumPy estimator, 4x4, non-zero shift, upsampling 7 or 8 (does not finish)", "shifts of exactly half the cell (sign ambiguous)", "image sizes other than 2, 3 (torch only) and 4 per axis (the estimator's data-dependent rounding is not determined under the float-constant DFT model)"]
     decide_many(check, [(n, c, dict(o, key=n.split("[")[0])) for n, c, o in cases(tier)],
                 timeout_s=120 if tier == "quick" else 600, validate=1, max_paths=8, decide_logic="QF_LRA", hard_timeout_s=200)
